@@ -269,11 +269,22 @@ def tree_program(draw, cfg=DEFAULT_CFG, cache_rel='cache.gz'):
             return ['bf', targets[n], n, a, draw(cmp_), catch]
         return ['sb', n, a, catch]
 
+    def insert_call(stmts, c, top):
+        k = draw(st.integers(0, len(stmts)))
+        cl = call(c, top)
+        if cl[0] == 'bf' and cfg.get('around_p') and chance(draw, cfg['around_p']):
+            # the same query of the target right before and right after the call that builds it (the answers differ
+            # legitimately: absent / stale before, fresh output after), with a comparison mode of its own
+            q = ['q', draw(qkind), cl[1], draw(cmp_)]
+            stmts[k:k] = [list(q), cl, list(q)]
+        else:
+            stmts.insert(k, cl)
+
     funcs = {}
     for n, k in zip(names, kinds):
         stmts = [draw(query) for _ in range(draw(st.integers(0, cfg.get('tree_queries', 2))))]
         for c in children[n]:
-            stmts.insert(draw(st.integers(0, len(stmts))), call(c, False))
+            insert_call(stmts, c, False)
         if k == 'file' and not chance(draw, cfg['nowrite_p']):
             stmts.insert(draw(st.integers(0, len(stmts))), ['write'])
         if chance(draw, 0.04 * cfg['raise_w']):
@@ -281,7 +292,7 @@ def tree_program(draw, cfg=DEFAULT_CFG, cache_rel='cache.gz'):
         funcs[n] = {'kind': k, 'body': stmts}
     root = [draw(query) for _ in range(draw(st.integers(0, 2)))]
     for c in children['root']:
-        root.insert(draw(st.integers(0, len(root))), call(c, True))
+        insert_call(root, c, True)
     return {'root': root, 'funcs': funcs, 'universe': list(univ)}
 
 
